@@ -117,7 +117,13 @@ func (e *EventEmitter) handleSubscriber(ctx context.Context, sub event.Subscript
 			select {
 			case e = <-sub.Out():
 			case <-ctx.Done():
+				// signal under the lock: the other goroutine may be between its
+				// check of the context and its Wait, and a signal sent at that
+				// moment without the lock would be lost, leaving it asleep for
+				// ever with the channel never closed
+				condProcess.L.Lock()
 				condProcess.Signal()
+				condProcess.L.Unlock()
 				return
 			}
 
